@@ -441,6 +441,19 @@ def wide_io(c, N, sz, r, fams=("std",)):
     return out
 
 
+# operation keyword of the case language -> name of the function it enters, where the two differ
+OP_FN = {"eq_slice": "eq", "eq_buf": "eq", "eq_self": "eq", "eq_array": "eq", "ne": "eq", "debug": "fmt", "iter_debug": "fmt",
+         "iter_mut_debug": "fmt", "drain_debug": "fmt", "into_iter_debug": "fmt", "cmp": "cmp", "partial_cmp": "partial_cmp",
+         "clone_keep": "clone", "from_array": "from", "extend_ref": "extend", "index": "index", "get_mut": "get_mut",
+         "iter_default": "default", "iter_mut_default": "default", "ref_into_iter": "into_iter", "boxed": "boxed"}
+AFFECTED = set()      # set by check.py's steered search: names of the functions through which a changed function is reached
+
+
+def enters(op, affected):
+    t = op.split(" ", 1)[0]
+    return OP_FN.get(t, t) in affected
+
+
 STEER_LIMIT = {"E": 1 << 21, "u8": 1 << 22, "NE": 8200, "B": 600, "NB": 600}   # as harness/build.rs instantiates them
 
 
@@ -462,7 +475,7 @@ def wide_cases(g, Ns, kind, elem="E", fault="none", suffix=("new",), layouts_per
             if N in STEERED:
                 ev = 1 if N <= 1000 else max(1, n // 50)     # ~50 operations x 18 layouts per large steered capacity
             for k in range(n):
-                if ev > 1 and not r.chance(1, ev):
+                if ev > 1 and not r.chance(1, ev) and not (AFFECTED and enters(dry[k], AFFECTED)):
                     continue
                 c = g.new(N, st, vals, junk=junk, fault=fault, elem=elem, tag="wide")
                 c.ops = [materialise(c, dry[k])] + list(suffix)
